@@ -143,3 +143,10 @@ mut("C20", "R20.10", "solve", "    executor: PopenExecutor = field(default_facto
 mut("C13", "R13.9", "sevm", "        if not is_eq(cond):\n            return\n        left, right = cond.arg(0), cond.arg(1)", "        if is_not(cond):\n            return self.process_cond(cond.arg(0))\n        if not is_eq(cond):\n            return\n        left, right = cond.arg(0), cond.arg(1)", "equalities learnt under a negation")
 mut("C05", "R05.7", "__main__", "        solver_output: SolverOutput = self._get_solver_output(future, path_ctx)\n        ctx.solver_outputs.append(solver_output)\n", "        solver_output: SolverOutput = self._get_solver_output(future, path_ctx)\n        if solver_output.result == unsat and not solver_output.unsat_core:\n            return\n        ctx.solver_outputs.append(solver_output)\n", "output recorded only on some paths")
 mut("C12", "R12.8", "__main__", "        path = Path(solver)\n        path.extend_path(ex.path)\n\n        # prepare calldata and dynamic parameters\n        calldata, dyn_params = mk_calldata(\n            abi, fun_info, args, new_symbol_id=ex.new_symbol_id\n        )\n        path.process_dyn_params(dyn_params)\n", "        path = Path(solver)\n\n        # prepare calldata and dynamic parameters\n        calldata, dyn_params = mk_calldata(\n            abi, fun_info, args, new_symbol_id=ex.new_symbol_id\n        )\n        path.process_dyn_params(dyn_params)\n        path.extend_path(ex.path)\n", "candidates registered before the path is extended")
+
+# ---- round 7: clauses added after the seventh held-out seed round
+mut("C09", "R02.7", "sevm", "        if value == ZERO:\n            return\n\n        insufficiency_cond", "        if value == ZERO:\n            return\n        if message.is_static:\n            return\n\n        insufficiency_cond", "funds split skipped by a test that is not over the value")
+mut("C02", "R02.7", "sevm", "        if value == ZERO:\n            return\n\n        insufficiency_cond", "        if value == ZERO or caller == message.target:\n            return\n\n        insufficiency_cond", "funds split skipped for a transfer to oneself")
+mut("C11", "R04.2", "solve", "        smtlib,\n    )\n\n    return SMTQuery(smtlib, query.assertions)", "        smtlib,\n        1,\n    )\n\n    return SMTQuery(smtlib, query.assertions)", "only the first division abstraction is defined")
+mut("C13", "R13.2", "assertions", "    # now both arguments are non-empty\n", "    # now both arguments are non-empty\n    if isinstance(v1, bytes) and isinstance(v2, bytes) and bop == \"Eq\":\n        return BoolVal(v1.lstrip(b\"\\x00\") == v2.lstrip(b\"\\x00\"))\n", "concrete operands compared without their length")
+mut("C19", "R19.8", "contract", "            operand = uint256(self.unwrapped_slice(pc + 1, next_pc))", "            operand = uint256(BV(self._fastcode[pc + 1 : next_pc])) if self._fastcode else uint256(self.unwrapped_slice(pc + 1, next_pc))", "truncated PUSH operand read without zero padding")
